@@ -58,7 +58,19 @@ func (s *Sys) Quiesce(o QuiesceOpts) (View, error) {
 			return v, nil
 		}
 		if time.Now().After(deadline) {
-			return v, fmt.Errorf("%w: %s", ErrWatchdog, why)
+			extra := ""
+			for i := range v.Jobs {
+				j := &v.Jobs[i]
+				if j.Start != nil && !j.Completed && s.WasStarted(j.ID) {
+					cnt, lc := s.IterCount(j.ID)
+					var sts []string
+					for _, t := range j.Tasks {
+						sts = append(sts, t.Name+"="+t.Status)
+					}
+					extra += fmt.Sprintf(" [job %s pipe %s iter=%d lastChange=%d mark=%+v lastRunnerSeq=%d tasks=%v canceled=%v]", j.ID[:8], j.Pipeline, cnt, lc, marks[j.ID], s.lastRunnerSeq(j.ID), sts, j.Canceled)
+				}
+			}
+			return v, fmt.Errorf("%w: %s%s", ErrWatchdog, why, extra)
 		}
 		spin++
 		if spin < 20 {
@@ -123,8 +135,8 @@ func (s *Sys) quiescentOnce(o QuiesceOpts, loopPassed func(job string) (bool, st
 	v := s.Snapshot(-1)
 	for i := range v.Jobs {
 		j := &v.Jobs[i]
-		if j.Start == nil || j.Completed {
-			continue
+		if j.Start == nil || j.Completed || !s.WasStarted(j.ID) {
+			continue // not executing (jobs loaded from a store have no scheduler)
 		}
 		if parked, _ := s.Parked(j.ID); parked {
 			// the driver parked this loop deliberately at an iteration boundary: only require that tasks are settled
